@@ -128,6 +128,30 @@ Proof.
 Qed.
 Print Assumptions attribution.
 
+(** Outbound: an outbound payload for address a is handed to the WireGuard endpoint that was
+    created for the identity recorded for a (so it is encrypted towards that client's static
+    key and no other), and only while that identity is authorised. *)
+Theorem outbound_uses_identitys_endpoint :
+  forall (wg pkt payload : Type) wg_new wg_in wg_out wg_tick hs_peer is_keepalive
+         (es : list (@event pkt payload)) s1 a pl id p,
+    In (s1, EPacketOut a pl, OEncrypted a id p)
+       (snd (@run wg pkt payload wg_new wg_in wg_out wg_tick hs_peer is_keepalive state0 es)) ->
+    exists t, tunnels s1 a = Some t /\ peer_static t = id /\
+              Reach wg pkt payload wg_new wg_in wg_out wg_tick id (tunn t) /\
+              p = snd (wg_out (tunn t) pl) /\
+              is_authorized (reg s1) (now s1) id = true.
+Proof.
+  intros wg pkt payload wg_new wg_in wg_out wg_tick hs_peer is_keepalive es s1 a pl id p Hin.
+  assert (tunnels_sound wg pkt payload wg_new wg_in wg_out wg_tick s1) as T.
+  { eapply run_tunnels_sound; [|exact Hin]. intros a' t'. cbn. discriminate. }
+  pose proof (run_entry_is_step wg pkt payload wg_new wg_in wg_out wg_tick hs_peer is_keepalive es _ _ _ _ Hin) as E.
+  symmetry in E.
+  destruct (step_outgoing_endpoint wg pkt payload wg_new wg_in wg_out wg_tick hs_peer is_keepalive s1 a pl id p E)
+    as (t & Ht & Hid & Hp & Ha).
+  exists t. refine (conj Ht (conj Hid (conj _ (conj Hp Ha)))). rewrite <- Hid. exact (T a t Ht).
+Qed.
+Print Assumptions outbound_uses_identitys_endpoint.
+
 (** the hypothesis of [attribution] is satisfiable: the toy authenticated channel meets it *)
 Theorem toy_endpoint_satisfies_hypothesis :
   wg_authenticates toy_wg toy_pkt (list N) toy_new toy_in toy_out toy_tick toy_authentic.
